@@ -204,7 +204,17 @@ func (m *C16) After(w *world.World, a *world.Action, r *world.StepResult) *Viola
 				}
 			}
 			creditDrop = creditDrop.Add(diff...)
-			if len(allocated[id]) == 0 && k.ComputeConsumerTotalVotingPower(ctx, id) != 0 {
+			// eligible power as the allocation in BeginBlock saw it (the set stored before this block, this block's height)
+			var eligiblePower int64
+			for _, cv := range pre.sets[id] {
+				if r.Block.Height-cv.JoinHeight >= k.GetNumberOfEpochsToStartReceivingRewards(ctx)*k.GetBlocksPerEpoch(ctx) {
+					eligiblePower += cv.Power
+				}
+			}
+			if eligiblePower == 0 {
+				w.Label("payout-zero-power-to-community-pool")
+			}
+			if len(allocated[id]) == 0 && eligiblePower != 0 {
 				// the zero-power branch emits no event; otherwise an allocation event must exist
 				return violf(P, "credit-vanished", "consumer %s: credit dropped by %s in block %d without a rewards distribution", id, diff, r.Block.Height)
 			}
